@@ -194,6 +194,11 @@ func filterOpsByVersionTime(ops []*operation.AnchoredOperation, timeStr string) 
 		return nil, fmt.Errorf("failed to parse version time[%s]: %w", timeStr, err)
 	}
 
+	if vt.Unix() < 0 {
+		// a time before the epoch precedes every operation (and would wrap around when converted to unsigned)
+		return nil, fmt.Errorf("no operations found for version time %s", timeStr)
+	}
+
 	for _, op := range ops {
 		if op.TransactionTime <= uint64(vt.Unix()) {
 			filteredOps = append(filteredOps, op)
